@@ -575,6 +575,107 @@ func l3FnCases(c *Ctx) {
 	_ = bits.OnesCount64
 }
 
+// l3ManyBitmaps builds a key set with n second-level inner nodes whose label sets are random
+// subsets (size >= 2) of an alphabet of a low-nibble-distinct bytes: many distinct label
+// bitmaps with substantial counts, which makes findMinShortSize choose larger tables.
+func l3ManyBitmaps(r *RNG, id string, n, a int) *TrieCase {
+	tc := &TrieCase{ID: id, Kind: "manybitmaps", VKind: "nil", Enc: "I32"}
+	tc.Opt = randOpt(r)
+	alpha := []byte{}
+	for _, x := range l3Perm16(r) {
+		if len(alpha) < a {
+			alpha = append(alpha, 0x30|byte(x))
+		}
+	}
+	ks := []string{}
+	for i := 0; i < n; i++ {
+		pre := string([]byte{byte(0x41 + i/200), byte(0x21 + i%200)})
+		cnt := 0
+		for _, c := range alpha {
+			if r.Intn(2) == 0 {
+				ks = append(ks, pre+string([]byte{c}))
+				cnt++
+			}
+		}
+		if cnt < 2 {
+			ks = append(ks, pre+string([]byte{alpha[0]}), pre+string([]byte{alpha[1]}))
+		}
+	}
+	tc.Keys = uniqSorted(ks)
+	return tc
+}
+
+// l3FixedTrap crafts variable-width values (encoder RAW: the value bytes themselves) whose
+// sizes, in the breadth-first leaf order in which newVLenArray sees them, are NOT all equal
+// although total == lastSize * count: [1,3,2,2,..,2] with empty elements sprinkled in.
+// The leaf order is taken from a value-less build of the same keys (DedupValue off, so the
+// trie shape does not depend on the values).
+func l3FixedTrap(r *RNG, id string, kind int) *TrieCase {
+	tc := genTrieCase(r, id, kind, VNil, 1, 0)
+	if len(tc.Keys) > 40 {
+		tc.Keys = tc.Keys[:40]
+	}
+	tc.Opt[0] = 0
+	tc.Enc = "RAW"
+	tc.VKind = "fixedtrap"
+	b := tc.Build()
+	if b.Err != nil || len(tc.Keys) < 3 {
+		return nil
+	}
+	type kv struct {
+		i  int
+		id int32
+	}
+	order := []kv{}
+	for i, k := range tc.Keys {
+		nid, _ := protect(func() string { return fmt.Sprint(b.St.GetID(k)) })
+		var x int32
+		fmt.Sscan(nid, &x)
+		if x < 0 {
+			return nil
+		}
+		order = append(order, kv{i, x})
+	}
+	for i := 1; i < len(order); i++ {
+		for j := i; j > 0 && order[j].id < order[j-1].id; j-- {
+			order[j], order[j-1] = order[j-1], order[j]
+		}
+	}
+	n := len(order)
+	empties := 0
+	if n > 4 {
+		empties = r.Intn(n / 3)
+	}
+	m := n - empties // non-empty elements, >= 3
+	widths := make([]uint64, 0, n)
+	widths = append(widths, 1, 3)
+	for len(widths) < m {
+		widths = append(widths, 2)
+	}
+	// empty elements anywhere but last
+	for e := 0; e < empties; e++ {
+		at := r.Intn(len(widths))
+		widths = append(widths[:at], append([]uint64{0}, widths[at:]...)...)
+	}
+	tc.IDs = make([]uint64, n)
+	for pos, o := range order {
+		tc.IDs[o.i] = (r.U64()/6)*6 + widths[pos]
+	}
+	return tc
+}
+
+func l3Perm16(r *RNG) []int {
+	p := make([]int, 16)
+	for i := range p {
+		p[i] = i
+	}
+	for i := 15; i > 0; i-- {
+		j := r.Intn(i + 1)
+		p[i], p[j] = p[j], p[i]
+	}
+	return p
+}
+
 func init() {
 	register("L3", func(c *Ctx) {
 		c.Or.Rule = "trie cases: genTrieCase over every key-set kind x value layout (random option combination and encoder per case), " +
@@ -619,6 +720,21 @@ func init() {
 				tc.Opt[0] = 0 // keep every key: the crafted widths survive
 			}
 			add(tc)
+		}
+		// sizes that sum to lastSize*count without being equal (in breadth-first leaf order)
+		for i := 0; i < c.N(8, 40); i++ {
+			kind := []int{KTiny, KRandBytes, KSharedPrefix, KNibble, KChain}[i%5]
+			if tc := l3FixedTrap(r.Fork(), fmt.Sprintf("ft%d", i), kind); tc != nil {
+				c.Or.Count("values:fixed-size-trap")
+				add(tc)
+			}
+		}
+		// many distinct label bitmaps: larger short-node tables
+		for i, na := range [][2]int{{150, 4}, {400, 5}, {500, 6}, {600, 7}} {
+			if i >= c.N(3, 4) {
+				break
+			}
+			add(l3ManyBitmaps(r.Fork(), fmt.Sprintf("mb%d", i), na[0], na[1]))
 		}
 		// directed search: short nodes at word boundaries
 		want := map[string]int{"straddle": c.N(6, 30), "endsword": c.N(6, 30), "endsbitmap": c.N(6, 30)}
